@@ -364,6 +364,22 @@ def ground_chunk(args):
                 ok, why = spec_check(year, g, age, d, fn)
                 if not ok:
                     bad.append((d, age, fn, why))
+    # a tabulated event asked by its own code answers with ITS row (the bracketing rows the clauses speak of are the rows of the
+    # data file): best and, at a tabulated age, factor, read from the file directly
+    ages_t = real.get_data()['ages']
+    for r in rr:
+        n += 1
+        try:
+            b = real.world_best(g, r[0])
+            if b != r[2]:
+                bad.append((r[0], None, 'row', 'world_best(%r) = %r, the row of the data file says %r' % (r[0], b, r[2])))
+            for ci in range(3, len(r)):
+                if r[ci] is not None and ages_t[ci - 3] in (35, 50, 70):
+                    f = real.calculate_factor(g, ages_t[ci - 3], r[0])
+                    if abs(f - r[ci]) > 1e-12:
+                        bad.append((r[0], ages_t[ci - 3], 'row', 'calculate_factor(%r, %r) = %r, the row of the data file says %r' % (r[0], ages_t[ci - 3], f, r[ci])))
+        except Exception as e:
+            bad.append((r[0], None, 'row', 'raises %s' % type(e).__name__))
     for q in [rnd.randrange(2, 39900) / 100 for _ in range(60)] + [0.05, 0.5, 1, 5.3, 11, 42.2, 210, 399.99]:
         for suf, scale in (('K', 1000), ('M', 1609)):
             if q * scale < 20 or q * scale > 400000 or q >= 1000:
@@ -444,6 +460,18 @@ def replay(rep):
         except Exception as e:
             got, bad = 'raises %s' % type(e).__name__, True
         print('replay: get_distance(%r) -> %r, exact %s m' % (inp[3], got, x))
+    elif inp[4] == 'row':
+        real = _ag().AgeGrader(inp[0])
+        row = [r for r in real.get_data()[inp[1]] if r[0] == inp[3]][0]
+        try:
+            b = real.world_best(inp[1], inp[3])
+            bad = b != row[2]
+            if inp[2] is not None:
+                f = real.calculate_factor(inp[1], inp[2], inp[3])
+                bad = bad or abs(f - row[3 + real.get_data()['ages'].index(inp[2])]) > 1e-12
+        except Exception as e:
+            b, bad = 'raises %s' % type(e).__name__, True
+        print('replay: world_best(%r) -> %r, row %r' % (inp[3], b, row[:3]))
     elif inp[4] == 'spelling':
         real = _ag().AgeGrader(inp[0])
         try:
